@@ -68,6 +68,7 @@ type propertyRun struct {
 	Units     []*Unit
 	Trusted   []string
 	Bounded   []boundedResult
+	Corpus    map[string]any
 	WallS     float64
 	LoadS     float64
 	Problems  []string
@@ -328,6 +329,9 @@ func cmdCheck(args []string) int {
 		stabilityPass(run.Units, timeout, seed, dir)
 	}
 	run.Bounded = runBounded(*prop, *tier)
+	if *tier == "thorough" {
+		run.Corpus = corpusFor(*prop)
+	}
 	run.WallS = time.Since(t0).Seconds()
 	return report(run, C)
 }
@@ -538,6 +542,9 @@ func report(run *propertyRun, C *Contracts) int {
 		"integer_mode":               "mathematical Int with exact wrap-around per machine width; 'nooverflow' functions additionally prove no wrap occurs",
 		"explanation":                explanationOf(run.ID),
 		"load_s":                     round3(run.LoadS),
+	}
+	if run.Corpus != nil {
+		cov["must_fail_corpus"] = run.Corpus
 	}
 	ev := map[string]any{
 		"property_id": run.ID, "tier": run.Tier, "seed": run.Seed, "level": level,
